@@ -80,6 +80,11 @@ pub fn passwords() -> Vec<(&'static str, Vec<u8>)> {
         ("pw", b"pw".to_vec()),
         ("pw-nul", b"pw\0".to_vec()),
         ("sha256-of-x65", r::sha256(&x65).to_vec()),
+        // long passwords that differ only in their last byte (a length cap or block-wise handling must not merge them)
+        ("long1100-a", [vec![b'y'; 1099], vec![b'a']].concat()),
+        ("long1100-b", [vec![b'y'; 1099], vec![b'b']].concat()),
+        ("long5000-a", [vec![b'z'; 4999], vec![b'a']].concat()),
+        ("long5000-b", [vec![b'z'; 4999], vec![b'b']].concat()),
     ]
 }
 
